@@ -776,10 +776,17 @@ func quoteKey(s string) string {
 	return "'" + r.Replace(s) + "'"
 }
 
+// Children returns the values of the literal in the order of their keys, so
+// that every pass visits (and reports errors in) them in the same order.
 func (n *MapLiteralNode) Children() []Node {
+	var keys = make([]string, 0, len(n.Items))
+	for k := range n.Items {
+		keys = append(keys, k)
+	}
+	sort.Strings(keys)
 	var nodes []Node
-	for _, v := range n.Items {
-		nodes = append(nodes, v)
+	for _, k := range keys {
+		nodes = append(nodes, n.Items[k])
 	}
 	return nodes
 }
